@@ -89,6 +89,28 @@ fn main() {
     }
     match args[1].as_str() {
         "replay" => replay(&args[2..]),
+        "canon" => {
+            // canon <models.ndjson> <out.ndjson>: every build must re-serialise a model file to the identical bytes
+            let inp = std::fs::read_to_string(&args[2]).expect("models");
+            let mut out = std::io::BufWriter::new(File::create(&args[3]).expect("out"));
+            for (i, line) in inp.lines().enumerate() {
+                if line.trim().is_empty() {
+                    continue;
+                }
+                let v: Value = serde_json::from_str(line).unwrap();
+                let bytes = core::mmodel_bytes(&core::mmodel_from_json(&v["model"]));
+                let r = std::panic::catch_unwind(|| vaporetto::Model::read_slice(&bytes).map(|(m, rest)| (m.to_vec(), rest.len())));
+                let (oc, reser, rest) = match r {
+                    Ok(Ok((Ok(b), rest))) => ("ok", json!(b), rest),
+                    Ok(Ok((Err(_), rest))) => ("writeerr", json!([-1]), rest),
+                    Ok(Err(_)) => ("err", json!([-1]), 0),
+                    Err(_) => ("panic", json!([-1]), 0),
+                };
+                writeln!(out, "{}", json!({"id": i, "ev": "file", "file": format!("gen{i}"), "op": "canon", "len": bytes.len(),
+                                          "outcome": oc, "bytes": bytes, "reser": reser, "restlen": rest})).unwrap();
+            }
+            out.flush().unwrap();
+        }
         #[cfg(feature = "full")]
         "files" => files::run(&args[2..]),
         #[cfg(feature = "full")]
